@@ -36,6 +36,8 @@ func runC01(c *core.Ctx) {
 	c01ServerDigestGate(c)
 	c01Immutability(c)
 	serverRangeDispatch(c, "C01.R6")
+	manifestBodyComplete(c, "C01.R4")
+	verifiedReaderOnlyReadByRead(c, "C01.R3")
 }
 
 // blobLiteralField: the value stored into field name of the *blob literal v.
